@@ -4129,6 +4129,12 @@ give_to_app:
     }
     if (!block.m && !lg_crcv->observe_set) {
 fail_resp:
+      /*
+       * The body cannot be completed. Do not hand this block to the
+       * application as if it were the successful, complete response.
+       */
+      if (COAP_RESPONSE_CLASS(rcvd->code) == 2)
+        rcvd->code = COAP_RESPONSE_CODE(408);
       /* lg_crcv no longer required - cache it for 1 sec */
       coap_ticks(&lg_crcv->last_used);
       lg_crcv->last_used = lg_crcv->last_used - COAP_MAX_TRANSMIT_WAIT_TICKS(session) +
